@@ -225,6 +225,14 @@ theorem C12_empty_lists (g : G) (R X T : Option (List GM.Node)) :
   ⟨GM.selectNodes_empty_roots g X T, GM.selectNodes_empty_targets g R X, GM.selectNodes_empty_exclusions g R T,
    fun t T' => GM.selectChecked_empty_roots_target g none t T' trivial⟩
 
+/-- C12, repeated names: a root, an excluded node or a target named several times — or through several aliases that resolve to
+    the same node — selects exactly what naming it once selects (the LENGTH of a list of names means nothing). -/
+theorem C12_repeated_names (g : G) (r : GM.Node) (R X T : List GM.Node) (hR : r ∈ R) :
+    selectNodes g (some (r :: R)) none none = selectNodes g (some R) none none ∧
+    (∀ x, x ∈ X → selectNodes g none (some (x :: X)) none = selectNodes g none (some X) none) ∧
+    (∀ t, t ∈ T → selectNodes g none none (some (t :: T)) = selectNodes g none none (some T)) :=
+  GM.selectNodes_repeated_names g r R X T hR
+
 theorem C11_setup_selection (g : G) (hnd : g.nodes.Nodup) (ht : TopoL g.preds g.nodes) (isSetup : GM.Node → Bool)
     (T : List GM.Node) (x : GM.Node) :
     x ∈ (selectNodes g none none (some T)).filter isSetup ↔
@@ -343,6 +351,19 @@ theorem C13_flag_on_runs_debug_nodes (g : G) (isDebug : GM.Node → Bool) (sel l
         m ∈ extendDebug g isDebug sel leaves true) :=
   ⟨fun x hx => GM.C13_flag_on_keeps_selection g isDebug sel leaves x hx,
    fun m hm hd hne hp => GM.C13_debug_below_leaves_is_pulled g isDebug sel leaves m hm hd hne hp⟩
+
+/-- C13 (flag on), the pull rule is a FIXPOINT reached by one walk over the recording order: a debug node all of whose (at least
+    one) inputs are leaves of the selection or debug nodes pulled before it is pulled too — also when its debug input was
+    itself pulled only "later in the same pass". -/
+theorem C13_pulled_debug_nodes_are_a_fixpoint (g : G) (isDebug : GM.Node → Bool) (hnd : g.nodes.Nodup) (ht : TopoL g.preds g.nodes)
+    (sel leaves : List GM.Node) (m : GM.Node) (hm : m ∈ g.nodes) (hd : isDebug m = true) (hne : (g.predsIn m).isEmpty = false)
+    (hp : ∀ p ∈ g.predsIn m, p ∈ GM.debugPass g isDebug g.nodes leaves) :
+    m ∈ extendDebug g isDebug sel leaves true := by
+  have h := GM.debugPass_fixpoint g isDebug hnd ht leaves m hm hd hne hp
+  simp only [extendDebug, if_true, List.mem_append, List.mem_filter]
+  by_cases hs : m ∈ sel
+  · exact Or.inl hs
+  · exact Or.inr ⟨h, by simpa using hs⟩
 
 /-- C13 (flag on): whatever is pulled in besides the selection is a debug node all of whose inputs are in the run. -/
 theorem C13_pulled_debug_has_inputs (g : G) (isDebug : GM.Node → Bool) (sel leaves : List GM.Node)
